@@ -165,6 +165,17 @@ def runLine (l : String) : String :=
   let unDash (s : String) : String := if s == "-" then "" else s
   match Sexp.parse rest with
   | some (.list [.atom "lit", .atom d, .atom s, .atom an]) => s!"{id}\t{litOutcome d (unDash s) (unDash an)}"
+  | some (.list [.atom "neg", .atom d, .atom s]) =>
+    -- `-<lit>`: the literal is checked on its own (so `-128i8` is refused), then negated by the Go operator `-`
+    let inner := litOutcome d (unDash s) ""
+    if inner.startsWith "accept " then
+      let goty := ((inner.splitOn " goty=").getD 1 "").takeWhile (· != ' ')
+      let golit := ((inner.splitOn " golit=").getD 1 "").takeWhile (· != ' ')
+      let core := ((inner.splitOn " goty=").getD 0 "")
+      match lookup "Neg" Gen.OpMap.unMap, unSym "Neg" with
+      | some g, some sym => s!"{id}\t{core} goop={g} arg=lit:{goty}:{golit} goty={goty} declty={goty} txt={goty}:{sym}{golit}"
+      | _, _ => s!"{id}\tno-op"
+    else s!"{id}\t{inner}"
   | some (.list [.atom "pat", .atom d, .atom s, .atom sc]) => s!"{id}\t{patOutcome d (unDash s) sc}"
   | some (.list [.atom "parse", .atom rust, .atom s]) =>
     match IntTy.ofRust rust with
